@@ -590,7 +590,10 @@ End Run.
 Inductive job := JSame (i : nat) | JPick (i : nat) (s : sdata).
 (* OSet: assignment to an input of the driven node; OSetOn: to an input of ANOTHER node (e.g. the enclosing macro,
    whose input forwards into the driven node through a value link) *)
-Inductive op := OSet (l : string) (v : Z) | ORun | OComplete | OClear | OSetOn (i : nat) (l : string) (v : Z).
+(* ORunX: run(check_readiness=False) -- fetches, but skips the readiness gate (a node whose sticky failed flag is still set
+   goes out again); OExec: execute() -- neither fetch nor gate (nor a `ran` emission: used where `ran` is unconnected) *)
+Inductive op := OSet (l : string) (v : Z) | ORun | OComplete | OClear | OSetOn (i : nat) (l : string) (v : Z)
+              | ORunX | OExec.
 Record cst := mkC { c_heap : heap; c_jobs : list job; c_log : list obs }.
 
 Definition log (s : cst) (h : heap) (jobs : list job) (x : string) : cst := mkC h jobs (c_log s ++ [OS x]).
@@ -609,13 +612,14 @@ Section Cycle.
     end.
 
   (* what the done-callback (Runnable._finish_run) does with a finished job, before any signal is emitted:
-     running := False; the result is processed (merge / outputs) or failed := True *)
+     running := False; the result is processed (merge / outputs) or failed := True; a success does NOT clear a
+     failed flag that was already set (it is sticky) *)
   Definition complete_job (h : heap) (j : job) : heap * bool :=
     match j with
     | JSame i =>
         let (h1, r) := body mode RFUEL h i in
         match r with
-        | ROk => (set_flags h1 i false false, true)
+        | ROk => (set_flags h1 i false (n_failed (nd h1 i)), true)
         | _ => (set_flags h1 i false true, false)
         end
     | JPick i sd =>
@@ -629,21 +633,22 @@ Section Cycle.
                             (merge_remote mode (set_flags h3 i false false) i c2, true)
               | None => (set_flags h2 i false true, false)
               end
-            else (set_outputs (set_flags h2 i false false) i (copy_value h2 c1), true)
+            else (set_outputs (set_flags h2 i false (n_failed (nd h2 i))) i (copy_value h2 c1), true)
         | _ => (set_flags h2 i false true, false)
         end
     end.
 
-  (* Node.run() up to the submit *)
-  Definition submit (s : cst) : cst :=
+  (* Node.run() up to the submit.  do_fetch: fetch_input; do_gate: check_readiness.  The gate is the ONLY place that
+     looks at `failed`; run() sets running := True and leaves failed as it is *)
+  Definition submit_with (do_fetch do_gate : bool) (s : cst) : cst :=
     let h := c_heap s in
-    match fetch h X with
+    match (if do_fetch then fetch h X else Some h) with
     | None => log s h (c_jobs s) "RuntimeError"
     | Some h1 =>
         let n := nd h1 X in
-        if n_running n || n_failed n || negb (inputs_ready h1 X) then log s h1 (c_jobs s) "ReadinessError"
+        if do_gate && (n_running n || n_failed n || negb (inputs_ready h1 X)) then log s h1 (c_jobs s) "ReadinessError"
         else
-          let h2 := set_flags h1 X true false in
+          let h2 := set_flags h1 X true (n_failed n) in
           if has_exec (n_exec n) then
             if crosses (n_exec n) then
               match dump DFUEL h2 X with
@@ -655,6 +660,7 @@ Section Cycle.
             let (h3, ok) := complete_job h2 (JSame X) in
             if ok then log s (finish_ok h3) (c_jobs s) "value" else log s h3 (c_jobs s) "UserExc"
     end.
+  Definition submit := submit_with true true.
 
   Definition step (s : cst) (o : op) : cst :=
     let h := c_heap s in
@@ -677,6 +683,8 @@ Section Cycle.
         end
     | OClear => log s (set_flags h X (n_running (nd h X)) false) (c_jobs s) "ok"
     | ORun => submit s
+    | ORunX => submit_with true false s
+    | OExec => submit_with false false s
     | OComplete =>
         match c_jobs s with
         | [] => log s h [] "none"
